@@ -1,4 +1,6 @@
 mod c01;
+mod c10;
+mod c14;
 mod c11;
 mod cborref;
 mod core;
@@ -38,6 +40,8 @@ fn main() {
     let r = match prop {
       "C11" => c11::replay(&j["case"]),
       "C01" => c01::replay(&j["case"]),
+      "C14" => c14::replay(&j["case"], j["kind"].as_str().unwrap_or("")),
+      "C10" => c10::replay(&j["case"], j["kind"].as_str().unwrap_or("")),
       _ => {
         eprintln!("ENGINE-ERROR no replay for {prop}");
         std::process::exit(2)
@@ -61,6 +65,8 @@ fn main() {
   let code = match args[1].as_str() {
     "C11" => c11::run(tier),
     "C01" => c01::run(tier),
+    "C10" => c10::run(tier),
+    "C14" => c14::run(tier),
     x => {
       eprintln!("ENGINE-ERROR unknown property {x}");
       2
